@@ -1760,6 +1760,9 @@ def fam_threads(case, ctx, rng):
         big = make_big_ts(rng)
         job_list = T.jobs(big, rng.randrange(1 << 30))
         expected = T.run_single(job_list)
+        for e in expected:
+            if isinstance(e, T.JobError):
+                ctx.violation("threads/single-threaded-call-raised", e.text, {"case": case})
         nthreads = rng.choice([2, 4, 8])
         reps = 2
         calls, mism, errors = T.run_concurrent(job_list, expected, nthreads, reps)
